@@ -10,8 +10,8 @@ Open Scope N_scope.
 Ltac decide_ifs :=
   repeat match goal with
          | |- context [if ?b then _ else _] =>
-             first [ let H := fresh "Hb" in assert (H : b = true) by (timeout 10 lia); rewrite H; clear H
-                   | let H := fresh "Hb" in assert (H : b = false) by (timeout 10 lia); rewrite H; clear H ]
+             first [ let H := fresh "Hb" in assert (H : b = true) by (timeout 600 lia); rewrite H; clear H
+                   | let H := fresh "Hb" in assert (H : b = false) by (timeout 600 lia); rewrite H; clear H ]
          end.
 
 (** ** character classes: model (runes, Z) vs specification (code points, N) *)
